@@ -129,6 +129,9 @@ TABLE.update({
 })
 # patches refuted by a contract evaluated on the real function over its enumerated box: "module:contract:arg_sets[:tier]"
 TABLE.update({
+    "c11_octal_parsed_as_decimal.diff": ("box", "contracts.c11:parse_number:parse_number_arg_sets", None),
+    "c11_constant_value_dropped.diff": ("contracts.c11", "_configure_constant", "scalar"),
+    "c11_bundle_constant_slots_collide.diff": ("contracts.c11", "_configure_constant", "bundle constant of 2"),
     "c04_self_feedback_on_green.diff": ("box", "contracts.c04:self_feedback:self_feedback_arg_sets", None),
     "c04_cleanup_keeps_wires_of_removed_gate.diff": ("box", "contracts.c04:cleanup_gates:cleanup_arg_sets", None),
     "../seeded/C04-1/patch.diff": ("box", "contracts.c04:optimize_feedback:feedback_arg_sets", None),
